@@ -1,6 +1,6 @@
 """Claimed level, notes and technique per property (input of tools/mk_manifest.py)."""
 
-HOOK_COMMITS = ["dc355a8", "7f77ba1", "f3aabec", "4172416", "1e9f3cf", "699f384", "43c9b4c"]
+HOOK_COMMITS = ["dc355a8", "7f77ba1", "f3aabec", "4172416", "1e9f3cf", "699f384", "43c9b4c", "4082f4a"]
 
 NOTE_COMMON = ("Trusted: Lean 4.33.0 kernel (leanchecker re-check in the thorough tier); axioms limited to propext, "
                "Classical.choice, Quot.sound (audited per theorem on every run); no sorry/admit/native_decide/bv_decide. "
